@@ -1,3 +1,5 @@
+import XPathV.Lemmas.Facts
+import XPathV.Generated.ExtraFacts
 import XPathV.Lemmas.C11Base
 import XPathV.Lemmas.UnionSem
 /-!
@@ -68,5 +70,15 @@ theorem seqLoop_is_seqForm (cfg : PCfg) (inp : Ast) (f : Nat) (st stEnd : PState
     (ts : List SeqStep) (h : SeqRun cfg inp f st ts stEnd) :
     seqLoop f cfg inp (stepOn inp s) st = .ok (seqForm inp s ts, stEnd) :=
   seqLoop_seqForm cfg inp f st stEnd s ts h
+
+/-! ## T0: what the regenerated facts say about the current source (leaf theorems: nothing builds on them, so a
+change of the source that invalidates one of them stops only this module) -/
+
+/-- T0: the identity key is rendered as the model's `identityKey` assumes: length-prefixed prefix,
+local name (and value), then the sibling-index path -/
+theorem identity_key_recipe_ok :
+    Generated.hashKeyCases = ["AttributeNode,TextNode,CommentNode: writeKeyPart(&sb,n.Prefix()); writeKeyPart(&sb,n.LocalName()); writeKeyPart(&sb,n.Value())",
+      "ElementNode: writeKeyPart(&sb,n.Prefix()); writeKeyPart(&sb,n.LocalName())"] ∧
+    Generated.writeKeyPartSrc = "{sb.WriteString(strconv.Itoa(len(s)))sb.WriteByte(':')sb.WriteString(s)}" := ⟨rfl, rfl⟩
 
 end XPathV.Theorems.C11
